@@ -48,9 +48,11 @@ class P(Prop):
     def gen(self, rng, tier, override=None):
         out = []
         for _ in range(self.n_cases(tier, override)):
-            stream = rng.choice(["electric", "electric", "mechanical", "frontend", "emachine", "emachine", "lmachine"])
+            stream = rng.choice(["electric", "electric", "mechanical", "frontend", "emachine", "emachine", "lmachine", "hybrid"])
             K = rng.randint(2, 4)
-            if stream == "emachine":
+            if stream == "hybrid":
+                out.append(self.gen_hybrid_history(rng))
+            elif stream == "emachine":
                 out.append(self.gen_emachine(rng))
             elif stream == "lmachine":
                 out.append(self.gen_lmachine(rng))
@@ -143,6 +145,90 @@ class P(Prop):
             if rng.random() < 0.25:
                 ops.append(["balance"])
         return {"stream": "emachine", "plant": plant, "ops": ops}
+
+    def gen_hybrid_history(self, rng):
+        """two calculations of the same length on ONE hybrid plant object (the generator of C05): the second one compared with the
+        same calculation on a freshly built plant.  With two machines, one may drive its shaft alone (full PTI) for the whole
+        series while the other shares the electric load as a shaft generator."""
+        import copy as _copy
+        from props.C05 import P as P05
+        base = P05().gen(rng, "quick", 1)[0]
+        if rng.random() < 0.7:             # mostly twin-screw plants (two machines)
+            for _try in range(8):
+                if len(base["machines"]) == 2:
+                    break
+                base = P05().gen(rng, "quick", 1)[0]
+        base.pop("second", None)
+        n = base["n"]
+        runs = [base]
+        b = {"cons": {k: [Fraction(rng.randint(0, 16), 16) * 1000 for _ in range(n)] for k in base["cons"]},
+             "machines": _copy.deepcopy(base["machines"]), "share_array": False}
+        rated = max(abs(x) for m in base["machines"] for x in m["e0"]) or Fraction(500)
+        for m in b["machines"]:
+            m["e0"] = [Fraction(rng.randint(-28, 28), 32) * rated for _ in range(n)]
+        if len(b["machines"]) == 2 and rng.random() < 0.8:
+            a_, s_ = b["machines"]
+            a_["full"] = [True] * n                     # drives its shaft alone throughout
+            a_["load"] = [min(l, rated) if l > 0 else rated / 2 for l in a_["load"]]
+            a_.pop("lsm", None)
+            s_["full"] = [False] * n                    # shaft generator sharing the electric load throughout
+            s_["lsm"] = [0] * n
+            s_["e0"] = [Fraction(0)] * n
+        runs.append(b)
+        return {"stream": "hybrid", "base": base, "runs": runs}
+
+    def run_hybrid(self, case):
+        from feems.exceptions import ConfigurationError, InputError
+        from props.C05 import P as P05
+        p5 = P05()
+        base = case["base"]
+        errs = (InputError, ConfigurationError, ValueError, IndexError)
+
+        def go(inputs):
+            ctx = p5.build(base)
+            out = None
+            for inp in inputs:
+                p5.supply(ctx, base, inp)
+                ctx["hyb"].do_power_balance_calculation()
+                out = p5.observe(ctx, base)
+            return out
+        with np.errstate(all="ignore"):
+            try:
+                p5.build(base)
+            except errs:
+                return {"rejected": "plant"}
+            try:
+                reused = go(case["runs"])
+            except errs as e:
+                reused = {"raised": type(e).__name__}
+            try:
+                fresh = go(case["runs"][-1:])
+            except errs as e:
+                fresh = {"raised": type(e).__name__}
+        return {"reused": reused, "fresh": fresh}
+
+    def oracle_hybrid(self, case, obs):
+        if "rejected" in obs:
+            return None
+        a, b = obs["reused"], obs["fresh"]
+        if "raised" in a or "raised" in b:
+            if a.get("raised") != b.get("raised"):
+                return f"the second calculation on the reused hybrid plant ends with {a.get('raised', 'a result')}, on a fresh plant with {b.get('raised', 'a result')}"
+            return None
+
+        def flat(o):
+            rows = [("source", k, s_) for k, s_ in enumerate(o["sources"])]
+            for j, m in enumerate(o["machines"]):
+                rows += [("machine electrical", j, m["elec"]), ("machine shaft", j, m["shaft"])] + [("engine", (j, k), e) for k, e in enumerate(m["engines"])]
+            return rows
+        scale = max([1.0] + a["src_rated"])
+        for (what, k, x), (_, _, y) in zip(flat(a), flat(b)):
+            for t, (u, v) in enumerate(zip(x, y)):
+                fu, fv = (u == u and abs(u) != float("inf")), (v == v and abs(v) != float("inf"))
+                if fu != fv or (fu and abs(u - v) > 1e-9 * scale):
+                    return (f"second calculation on the reused hybrid plant: {what} {k} step {t} is {u}; the same calculation on a freshly built "
+                            f"plant gives {v}")
+        return None
 
     def gen_lmachine(self, rng):
         has_pti = rng.random() < 0.6
@@ -454,6 +540,8 @@ class P(Prop):
         if st == "lmachine":
             with np.errstate(all="ignore"):
                 return self.run_lmachine(case)
+        if st == "hybrid":
+            return self.run_hybrid(case)
         obs = {"runs": []}
         held = []
         try:
@@ -571,6 +659,8 @@ class P(Prop):
             return self.term_emachine(case, obs)
         if st == "lmachine":
             return self.term_lmachine(case, obs)
+        if st == "hybrid":
+            return "true"        # the model of the combined balance is C05's; here the reused object is compared with a fresh one
         parts = []
         if st == "electric":
             for inp, r in zip(case["runs"], obs["runs"]):
@@ -587,6 +677,8 @@ class P(Prop):
             return None
         if case["stream"] in ("emachine", "lmachine"):
             return self.oracle_machine(case, obs)
+        if case["stream"] == "hybrid":
+            return self.oracle_hybrid(case, obs)
         for k, r in enumerate(obs["runs"]):
             if not finite(r["first"]) or not finite(r["fresh"]):
                 continue
@@ -612,12 +704,22 @@ class P(Prop):
         return None
 
     def nontrivial(self, case, obs):
+        if case["stream"] == "hybrid":
+            return True
         if case["stream"] in ("emachine", "lmachine"):
             return any(op[0] == "set" for op in case["ops"])
         ns = [r["n"] if "n" in r else len(r["prop"]) for r in case["runs"]]
         return len(set(ns)) > 1
 
     def tags(self, case, obs):
+        if case["stream"] == "hybrid":
+            t = ["stream=hybrid", f"machines={len(case['base']['machines'])}"]
+            b = case["runs"][-1]["machines"]
+            if len(b) == 2 and all(b[0]["full"]) and b[1].get("lsm") and not any(b[1]["lsm"]):
+                t.append("one machine in full PTI throughout, the other a load-sharing shaft generator")
+            if "rejected" in obs:
+                t.append("rejected")
+            return t
         if case["stream"] in ("emachine", "lmachine"):
             t = ["stream=" + case["stream"], f"balances={sum(1 for op in case['ops'] if op[0] == 'balance')}"]
             t += sorted({"partial-set:" + str(op[2]) for op in case["ops"] if op[0] == "set"})
